@@ -26,6 +26,7 @@ type aReference struct {
 	conf   run.Config
 	schema base.LogSchema
 	cache  map[string]*aRefResult
+	outIdx int // which output's serializer the reference uses
 }
 
 type aRefResult struct {
@@ -68,7 +69,7 @@ func (ref *aReference) eval(message string) (res *aRefResult) {
 		}
 	}()
 	mf := promreg.NewMetricFactory("ref_", nil, nil)
-	alloc := base.NewLogAllocator(ref.schema, 1)
+	alloc := base.NewLogAllocator(ref.schema, len(ref.conf.OutputBuffersPairs))
 	inputCounter := base.NewLogInputCounter(mf.AddOrGetPrefix("input_", nil, nil))
 	parser, err := ref.conf.Inputs[0].Value.NewParser(logger.Root(), alloc, ref.schema, inputCounter)
 	if err != nil {
@@ -78,7 +79,7 @@ func (ref *aReference) eval(message string) (res *aRefResult) {
 	procCounter := base.NewLogProcessCounter(mf.AddOrGetPrefix("process_", nil, nil), ref.schema,
 		ref.schema.MustCreateFieldLocators(ref.conf.MetricKeys), []string{ref.conf.OutputBuffersPairs[0].Name})
 	transforms := bsupport.NewTransformsFromConfig(ref.conf.Transformations, ref.schema, logger.Root(), procCounter)
-	serializer := ref.conf.OutputBuffersPairs[0].OutputConfig.Value.NewSerializer(logger.Root(), ref.schema, "ref")
+	serializer := ref.conf.OutputBuffersPairs[ref.outIdx].OutputConfig.Value.NewSerializer(logger.Root(), ref.schema, "ref")
 	record := parser.Parse([]byte(message), time.Unix(0, 0))
 	if record == nil {
 		res.failed = true
@@ -1017,6 +1018,40 @@ func (r *aRun) oracleC12(v *aView) {
 		}
 	}
 	r.checkNoPhantoms(v, "C12")
+	if r.srv2 != nil {
+		// the second output serializes the same record structs after (or before) the first one: same rule, its own reference
+		ref2, err := newAReference(r.s.configYAML(""))
+		if err != nil {
+			r.out.Harness = "reference for output 2: " + err.Error()
+			return
+		}
+		ref2.outIdx = 1
+		saved := v.ref
+		v.ref = ref2
+		for _, m := range r.srv2.msgs {
+			for i := range m.Entries {
+				e := &m.Entries[i]
+				st := eventStamp(e)
+				sr := v.byStamp[st]
+				if sr == nil || sr.rec.Raw != "" {
+					continue
+				}
+				r.out.Obligations++
+				r.out.probe("second_output_events_checked", 1)
+				if sr.rec.Drop {
+					r.note("C12", "not-isolated", "filtered-record-delivered", "record %s carries the drop marker but was delivered to the second output", st)
+					continue
+				}
+				if diff := r.checkEvent(v, sr, e); diff != "" {
+					r.note("C12", "not-isolated", "not-isolated-output2", "the event of record %s on the second output differs from what the same record gives on a fresh pipeline: %s", st, diff)
+				}
+			}
+		}
+		v.ref = saved
+		for _, de := range r.srv2.decodeErr {
+			r.note("C12", "not-isolated", "output2-undecodable", "the second upstream could not decode a message: %s", de)
+		}
+	}
 }
 
 // ---------------------------------------------------------------------------------------------------------------
